@@ -280,7 +280,22 @@ def main(pid, argv=None):
             if "msg" in rp:
                 c.decs.append(dict(msg=rp["msg"], origin="replay", impl=cc.impl_decode(c.obj, rp["msg"])))
     else:
-        cases = cr.build_cases(rng, n_desc, values_per_stream=vps, decode_budget=budget, want_static=(pid == "C08"))
+        extra = []
+        if pid == "C08":
+            # corpus: the recorded finding 'prefix-out-of-order'
+            extra.append(([cc.param("p3", dict(k="coded", dct=cc.std(cc.BUINT, 4), v=7), 5),
+                           cc.param("p1", dict(k="coded", dct=cc.std(cc.BUINT, 16), v=14281), 0),
+                           cc.param("p2", dict(k="value", dop=cc.simple(cc.std(cc.BUINT, 8, 2, False)), dflt=None), 3, 6)],
+                          False, None))
+        cases = cr.build_cases(rng, n_desc, values_per_stream=vps, decode_budget=budget, want_static=(pid == "C08"),
+                               extra_descs=extra)
+    if pid in ("C04", "C01", "C02") and not ck.replay:
+        try:
+            sweep = cr.atomic_sweep_cases(rng, quick)
+            ck.coverage["atomic_sweep_descriptions"] = len(sweep)
+            cases = sweep + cases
+        except Exception as e:  # noqa
+            ck.note_broken(f"atomic sweep could not be loaded: {e}")
     model_ok = ck.model_available()
     if model_ok:
         try:
@@ -432,6 +447,8 @@ def main(pid, argv=None):
     ck.coverage["disagreements"] = ndis
     if pid == "C05" and not ck.replay:
         somersault_decode(ck)
+    if pid == "C17" and not ck.replay:
+        cli_mode_restore(ck)
     if pid == "C08" and not ck.replay:
         condensed_mask_corpus(ck)
     if pid == "C02" and not ck.replay:
@@ -448,6 +465,35 @@ def main(pid, argv=None):
         "nesting <= 3, BYTE-SIZE smaller/equal/larger, fields with 0..3 items) x value streams valid/boundary/ill-typed, "
         "byte strings = own encodings, their prefixes and single-byte mutations, random strings; distinct by (description, input); "
         "non-trivial = every case (each has at least one parameter or a non-empty input)")
+
+
+def cli_mode_restore(ck):
+    """the command line front end switches the mode for one tool run and must restore it, also when the tool fails"""
+    import contextlib
+    import io
+    import sys as _sys
+    import odxtools.exceptions as ex
+    from odxtools.cli import main as cli_main
+    for start_mode, argv in ((True, ["odxtools", "--no-strict", "list", "/nonexistent/file.pdx"]),
+                             (False, ["odxtools", "list", "/nonexistent/file.pdx"]),
+                             (True, ["odxtools", "--no-strict", "list", common.REPO + "/examples/somersault.pdx"])):
+        ex.strict_mode = start_mode
+        old_argv = _sys.argv
+        _sys.argv = argv
+        try:
+            with contextlib.redirect_stdout(io.StringIO()), contextlib.redirect_stderr(io.StringIO()):
+                try:
+                    cli_main.start_cli()
+                except BaseException:  # noqa
+                    pass
+        finally:
+            _sys.argv = old_argv
+        after = ex.strict_mode
+        ex.strict_mode = True
+        ck.count(("cli", tuple(argv), start_mode))
+        if after != start_mode:
+            ck.violation(f"strict mode is {after} after running the command line {' '.join(argv[1:])} "
+                         f"with strict mode {start_mode} before", {"argv": argv, "strict_mode_before": start_mode})
 
 
 def condensed_mask_corpus(ck):
@@ -513,6 +559,13 @@ def wide_integer_corpus(ck):
 
 def known_tags(c, e, bad):
     tags = set()
+    # a constant listed before a parameter which is positioned in front of it
+    ps = c.params
+    for i, p in enumerate(ps):
+        if p["kind"]["k"] in ("coded", "physconst") and p["bytepos"] is not None:
+            if any(q["bytepos"] is not None and q["bytepos"] < p["bytepos"] and
+                   q["kind"]["k"] not in ("coded", "physconst") for q in ps[i + 1:]):
+                tags.add("constant-listed-before-earlier-positioned-parameter")
     tags.add(bad.split(":")[0].split("(")[0].strip()[:60])
     for k in desc_features(c.params):
         tags.add(k)
@@ -547,6 +600,10 @@ def check_static(ck, c, model_ok):
                              rep(c, value=e["value"], req=e["req"], static=sb))
             return
         if pre is not None and not ei[2] and not pdu.startswith(pre) and (e["req"] or b"") == st["rq"]:
+            kf = ck.match_known(known_tags(c, e, "reported constant prefix"))
+            if kf:
+                ck.known_finding(kf["id"], kf["what"])
+                return
             ck.violation(f"reported constant prefix {pre.hex()} is not a prefix of the encoding {pdu.hex()}",
                          rep(c, value=e["value"], req=e["req"]))
             return
